@@ -88,7 +88,16 @@ export function genTy(rng, d, sc) {
     if (r === 8 && sc.params.length) return [A("ref"), rng.pick(sc.params)];
     return A(rng.pick(["string", "number"]));
   }
-  switch (rng.below(22)) {
+  switch (rng.below(24)) {
+    case 21: case 22: { // discriminated union whose variants are intersections re-declaring the discriminator (wider ∩ narrower)
+      const key = rng.pick(["t", "kind"]);
+      const lit = (v) => [A("lit"), [A("s"), v]];
+      const extra = () => genObjMembers(rng, d - 1, sc).filter((m) => m[0] !== key);
+      const wide = [A("obj"), [[key, A("false"), [A("union"), lit("a"), lit("b")]], ...extra()], A("none")];
+      const narrow = (v) => [A("obj"), [[key, A("false"), lit(v)], ...extra()], A("none")];
+      const variant = (v) => (rng.chance(1, 2) ? [A("inter"), wide, narrow(v)] : [A("inter"), narrow(v), wide]);
+      return [A("union"), variant("a"), ...(rng.chance(1, 2) ? [variant("b")] : []), narrow("c")];
+    }
     case 0: case 1: case 2: return genObj(rng, d, sc);
     case 3: return [A(rng.chance(1, 2) ? "array" : "arr2"), genTy(rng, d - 1, sc)];
     case 4: return [A("tuple"), Array.from({ length: rng.below(3) }, () => genTy(rng, d - 1, sc)), rng.chance(1, 3) ? genTy(rng, d - 1, sc) : A("none")];
